@@ -18,6 +18,7 @@ import EinxModel.Driver.Elab
 import EinxModel.Driver.Alias
 import EinxModel.Driver.Optimize
 import EinxModel.Driver.Denote
+import EinxModel.Driver.Shorthand
 /-! Line-protocol driver: one JSON request per input line, one JSON answer per output line. -/
 open Lean Einx.Driver
 
@@ -29,6 +30,7 @@ def dispatch (j : Json) : R Json := do
   | "notation" => Einx.Driver.Notation.handle j
   | "cache-table" | "freeze" | "pyeq" | "pyhash" | "memo" | "stack" => Einx.Driver.Cache.handle j
   | "solve" | "checksat" | "checkaxes" => Einx.Driver.Solve.handle j
+  | "shorthand" => Einx.Driver.Shorthand.handle j
   | "value_range" => Einx.Driver.Cse.handle j
   | "cse_trees" | "cse_check" | "cse_enum" => Einx.Driver.CseTrees.handle j
   | "ir_run" | "validate" | "denote" | "norm_arith" => Einx.Driver.IR.handle j
